@@ -577,14 +577,29 @@ PROPS["C13"] = dict(
          "listeners over loopback. Observed: the octets read back, parsed as frames; the multiset of response bodies "
          "(byte-exact against the router model), ids/rcodes, open/closed; over-limit cases use max_concurrent_queries=2 and a "
          "500 ms upstream. streamgarbage: undecodable frames, frames longer than sent, zero-length frames, arbitrary octets, "
-         "bit flips, then a valid query on a new connection. distinct = distinct case line; non-trivial = at least one "
-         "response read back (stream) / the probe was answered (streamgarbage)",
+         "bit flips, then a valid query on a new connection. streamtimed (segmentation x time): the listeners get an idle "
+         "timeout of 2 s (via=sock: idle_timeout: 2 in the configuration; via=feed: the same handleConn / OnOpen+OnTraffic "
+         "built with idleTimeout 2 s) and the segments are sent at chosen instants: whole frame(s) + the START of the next "
+         "one (1 octet, bare prefix, inside the body, all but one octet) and the rest 1.15-1.3 s later; every segment = "
+         "tail of a frame + head of the next; one frame per segment; the first frame in two pieces; a frame longer than "
+         "the bufio buffer; one frame trickling in over 2.6-3.2 s (gnet only); random cuts with random gaps - always such "
+         "that no frame is completed later than 1.3 s after the one before it (gnet: no gap above 1.3 s) while the "
+         "connection, and in most classes the time since the reader last saw an empty buffer at a frame boundary, "
+         "outlasts the timeout by >= 300 ms: every query must still be answered once and the connection stay open. "
+         "distinct = distinct case line; non-trivial = at least one "
+         "response read back (stream, streamtimed and the harness was on time) / the probe was answered (streamgarbage)",
     assumptions=["each Write/AsyncWrite call is atomic with respect to the other writers of the connection (net.Conn, gnet)",
                  "loopback delivery; handlers of forwarded queries do not finish before the reader has consumed a burst "
                  "that arrived in one segment (500 ms upstream delay in the over-limit cases)",
                  "zero-length frames are outside the property (C13_zero_len_note): on the wire they are only sent to the "
-                 "tcp listener, whose reaction does not depend on segmentation"],
-    trusted=["C13: bufio.Reader/io.ReadFull/net.Conn.Read and gnet.Conn.Next are modelled (DESIGN 6); the fake gnet.Conn of "
+                 "tcp listener, whose reaction does not depend on segmentation",
+                 "streamtimed: the readers take no time (model) / the process is not stalled for 250 ms or more and the "
+                 "sending goroutine keeps 150 ms of distance to the timeout (harness; a run that did not is reported "
+                 "late=1 and not compared); when and whether an idle connection is closed is outside the property and "
+                 "not compared"],
+    trusted=["C13: SetReadDeadline = an absolute instant after which a conn.Read that has to wait fails, buffered octets are "
+             "served without a deadline check; time.AfterFunc/Reset = one timer per connection (Net/FramingTimed.v)",
+             "C13: bufio.Reader/io.ReadFull/net.Conn.Read and gnet.Conn.Next are modelled (DESIGN 6); the fake gnet.Conn of "
              "the harness implements Next/InboundBuffered/Write/AsyncWrite with the semantics read from gnet v2.3.6",
              "C13: response bytes are predicted with the router model of C03 (handle/respond/refuse)"],
     level_note="C13_decode_once is proved for both readers for every frame list, every decoder verdict and every "
@@ -593,5 +608,9 @@ PROPS["C13"] = dict(
                "C13_over_limit for every arrival/completion history. DoT shares handleConn with TCP (tls.Conn under the "
                "same reader and writers); it is exercised through handleConn over net.Pipe with a temporary certificate, "
                "not through a listening socket. Zero-length frames are outside the property "
-               "(C13_zero_len_note).",
+               "(C13_zero_len_note). Time: C13_deadline_tcp / C13_idle_timer_gnet are proved for every timed "
+               "segmentation that keeps the pacing hypothesis (per message for handleConn, per read event for gnet) in a "
+               "model whose readers take no time; the variant that re-arms the deadline only when the bufio reader is "
+               "drained is refuted (C13_rearm_when_drained_refuted). The deadline/timer semantics of net.Conn / time.Timer "
+               "are modelled and exercised with a 2 s timeout, not verified.",
 )
